@@ -971,7 +971,8 @@ func (m *LinearBlockMetadata) populateAllocationRequestLower(
 	// In a ring buffer (or empty if we're out of space), we'll attempt to allocate at the end of the second vector
 	if m.secondVectorMode == SecondVectorModeEmpty || m.secondVectorMode == SecondVectorModeRingBuffer {
 		if len(firstVector) == 0 {
-			panic("attempting to allocate into the second vector, but the first is not empty")
+			// The block is empty and the request did not fit at its start, so there is nowhere to wrap around to
+			return false
 		}
 
 		var resultBaseOffset int
